@@ -732,12 +732,26 @@ func (w *world) opGenesis(op ledgerOp) {
 
 func (w *world) opCraft(op ledgerOp) {
 	s, t := w.wallets[op.S], w.trx[op.T]
-	l, okl := w.realID(op.L)
-	r, okr := w.realID(op.R)
-	if s == nil || t == nil || !okl || !okr {
+	if s == nil || t == nil {
 		return
 	}
-	v, err := accountant.NewVertex(*t, w.vtx[l-1].Hash, w.vtx[r-1].Hash, op.W, s)
+	// parent 0: no parent (a root, like the genesis vertex)
+	var lh, rh [32]byte
+	if op.L != 0 {
+		l, ok := w.realID(op.L)
+		if !ok {
+			return
+		}
+		lh = w.vtx[l-1].Hash
+	}
+	if op.R != 0 {
+		r, ok := w.realID(op.R)
+		if !ok {
+			return
+		}
+		rh = w.vtx[r-1].Hash
+	}
+	v, err := accountant.NewVertex(*t, lh, rh, op.W, s)
 	if err != nil {
 		return
 	}
@@ -1052,6 +1066,13 @@ recv:
 			c := w.vtx[id-1]
 			stream = append(stream, &c)
 			order = append(order, id)
+		}
+	case "only":
+		// the stream is one vertex of the world (a forged root) and nothing else
+		if id, ok := w.realID(op.V); ok {
+			c := w.vtx[id-1]
+			stream = []*accountant.Vertex{&c}
+			order = []int{id}
 		}
 	}
 	lch := make(chan *accountant.Vertex, len(stream)+1)
